@@ -201,6 +201,21 @@ def r1_algebra(program, rep):
     rep.check(oksrc, "C04-R1", inst, "the merged entry's sources are the "
               "union of its members' sources", construct="merge sources",
               node=fn)
+    # ... and nothing is taken out of that union again (a source the merged
+    # entry does not list lets default-route removal drop the entry)
+    if SRC is not None:
+        rem = [x for nm_ in ("discard", "remove", "pop", "clear",
+                             "difference_update", "intersection_update",
+                             "symmetric_difference_update")
+               for x in method_calls(T_, nm_) if x[2] == SRC]
+        rep.check(not rem, "C04-R1", inst, "no source is removed from the "
+                  "union", construct="merge sources kept",
+                  node=rem[0][1] if rem else fn, positive=True,
+                  fail="sources are removed from the union of the members' "
+                       "sources (line %d): the merged entry no longer lists "
+                       "a direction its members' packets arrive from, so "
+                       "default-route removal can drop an entry those "
+                       "packets need" % (rem[0][1].lineno if rem else 0))
     # Xs = ~key & ~mask in the three places
     for spec, inputs, names, text in (
             (OC + ":_get_generality", None, ("xs",), "~key & ~mask"),
@@ -1863,6 +1878,95 @@ def _own(node, fn):
     return False
 
 
+def r3_changed_flag(program, rep):
+    """_refine_upcheck hands back (merge, changed) and _refine_merge repeats
+    the down-check only when ``changed`` is true.  Followed over the paths of
+    the function as a two-valued state - has the merge been replaced by a
+    smaller one, is the flag set: no return is reached with a replaced merge
+    and the flag still false (a merge that lost members sits at a new place
+    in the table and may cover entries below it that the first down-check
+    never compared it with).  A merge given up altogether (``_Merge(table)``)
+    needs no further check and counts as not replaced."""
+    from ..cfg import cfg_of
+    up = program.get(OC + ":_refine_upcheck")
+    inst = qual(up)
+    rets = [r for r in returns_of(up) if r.value is not None]
+    pairs = set()
+    for r in rets:
+        v = r.value
+        if not (isinstance(v, ast.Tuple) and len(v.elts) == 2 and
+                all(isinstance(e, ast.Name) for e in v.elts)):
+            raise AnalysisError("_refine_upcheck: does not return a pair of "
+                                "two names (merge, changed) in this form")
+        pairs.add((v.elts[0].id, v.elts[1].id))
+    if len(pairs) != 1:
+        raise AnalysisError("_refine_upcheck: the returns name different "
+                            "variables")
+    mvar, cvar = pairs.pop()
+    if cvar in formals(up) or mvar not in formals(up):
+        raise AnalysisError("_refine_upcheck: (merge, changed) are not the "
+                            "parameter and a local flag")
+
+    def own(n):
+        x = getattr(n, "_parent", None)
+        while x is not None and not isinstance(
+                x, (ast.FunctionDef, ast.AsyncFunctionDef, ast.Lambda)):
+            x = getattr(x, "_parent", None)
+        return x is up
+    for n in ast.walk(up):
+        if isinstance(n, ast.Name) and n.id in (mvar, cvar) and \
+                isinstance(n.ctx, (ast.Store, ast.Del)) and own(n):
+            st = n._parent
+            if not (isinstance(st, ast.Assign) and len(st.targets) == 1 and
+                    st.targets[0] is n):
+                raise AnalysisError("_refine_upcheck: %s is bound by a form "
+                                    "this rule does not read" % n.id)
+            if n.id == cvar and not (isinstance(st.value, ast.Constant) and
+                                     isinstance(st.value.value, bool)):
+                raise AnalysisError("_refine_upcheck: the flag is not set "
+                                    "to a literal truth value")
+            if n.id == mvar and not (isinstance(st.value, ast.Call) and
+                                     call_name(st.value)[0] == "_Merge"):
+                raise AnalysisError("_refine_upcheck: the merge is replaced "
+                                    "by something other than a new _Merge")
+    cfg = cfg_of(up)
+    states = {cfg.entry.id: {(0, False)}}
+    work = [cfg.entry]
+    bad = []
+    while work:
+        n = work.pop()
+        out = set()
+        for (reb, chg) in states.get(n.id, ()):
+            a = n.ast
+            if n.kind == "stmt" and isinstance(a, ast.Assign) and \
+                    isinstance(a.targets[0], ast.Name):
+                if a.targets[0].id == cvar:
+                    chg = a.value.value
+                elif a.targets[0].id == mvar:
+                    given_up = len(a.value.args) == 1 and \
+                        not a.value.keywords
+                    reb = 0 if given_up else a.lineno
+            if n.kind == "stmt" and isinstance(a, ast.Return) and reb and \
+                    not chg:
+                bad.append((reb, a))
+            out.add((reb, chg))
+        for s_ in n.succ:
+            cur = states.setdefault(s_.id, set())
+            if not out <= cur:
+                cur |= out
+                work.append(s_)
+    bad = sorted(set((l, r.lineno) for l, r in bad))
+    rep.check(not bad, "C04-R3", inst, "no return hands back a merge that "
+              "lost members with the changed flag still false",
+              construct="changed flag", node=up, positive=True,
+              fail="the merge replaced at line %d reaches the return at line "
+                   "%d with %s still False: _refine_merge then skips the "
+                   "second down-check, and the smaller merge is inserted "
+                   "above entries it covers" % (
+                       bad[0][0] if bad else 0, bad[0][1] if bad else 0,
+                       cvar))
+
+
 def r3_upcheck_all_members(program, rep):
     """Every member of the merge is examined by the up-check: the member
     loop is left early only once the merge has been given up (its goodness
@@ -1933,6 +2037,7 @@ def check(program, rep):
     rep.guard("C04-R3", r3_upcheck_range, program, rep)
     rep.guard("C04-R3", r3_ranges, program, rep)
     rep.guard("C04-R3", r3_upcheck_all_members, program, rep)
+    rep.guard("C04-R3", r3_changed_flag, program, rep)
     rep.guard("C04-R4", r4_aliases_effects, program, rep)
     rep.guard("C04-R4", r4_aliases, program, rep)
     rep.guard("C04-R5", r5_contract, program, rep)
